@@ -62,6 +62,8 @@ pub struct Record {
     pub state_fps: Vec<u64>,
     pub first_bad_state: Option<String>,
     pub micros: u64,
+    /// wall time of the run-thread phase only (what the run budget is about)
+    pub run_micros: u64,
 }
 
 impl Record {
@@ -96,6 +98,7 @@ impl Record {
     pub fn to_json(&self) -> Value {
         let mut v = self.log_json();
         v["micros"] = json!(self.micros);
+        v["run_micros"] = json!(self.run_micros);
         v
     }
 
@@ -147,6 +150,7 @@ impl Record {
             state_fps: v["state_fps"].as_array().map(|a| a.iter().map(|x| u64::from_str_radix(x.as_str().unwrap_or("0"), 16).unwrap_or(0)).collect()).unwrap_or_default(),
             first_bad_state: v["first_bad_state"].as_str().map(|s| s.to_string()),
             micros: v["micros"].as_u64().unwrap_or(0),
+            run_micros: v["run_micros"].as_u64().unwrap_or(0),
         }
     }
 
@@ -262,7 +266,7 @@ fn class_count(ds: &PartialDSym, k: usize, cap: usize) -> usize {
 
 /// The lookup key of `is_euclidean` (euclidicity::orbifold_invariant is
 /// private): same recipe, public API.
-fn orbifold_invariant_string(ds: &PartialDSym) -> String {
+pub fn orbifold_invariant_string(ds: &PartialDSym) -> String {
     use rust_dsymbols::delaney3d::orbifold_graph;
     let (labels, edges) = orbifold_graph(ds);
     let fg = fundamental_group(ds);
@@ -459,6 +463,7 @@ impl Executor {
             }
         }
 
+        let t_run = std::time::Instant::now();
         if let Some(f) = self.on_run_phase.as_mut() {
             f(true);
         }
@@ -494,6 +499,7 @@ impl Executor {
                 })
             }
         };
+        rec.run_micros = t_run.elapsed().as_micros() as u64;
         if let Some(f) = self.on_run_phase.as_mut() {
             f(false);
         }
@@ -690,6 +696,7 @@ impl Executor {
             Repr::SimpleDSym => Input::C(x.to_simple()),
             Repr::PartialDSym => Input::D(x.to_partial()),
         };
+        let t_run = std::time::Instant::now();
         if let Some(f) = self.on_run_phase.as_mut() {
             f(true);
         }
@@ -710,6 +717,7 @@ impl Executor {
                 Err(p) => std::panic::resume_unwind(p),
             }
         });
+        rec.run_micros = t_run.elapsed().as_micros() as u64;
         if let Some(f) = self.on_run_phase.as_mut() {
             f(false);
         }
